@@ -747,6 +747,7 @@ pub fn to_request(addr: SocketAddr, op: &HsOp, fx: &[Fx]) -> Request {
         HsOp::Cert(Op::Remove(r)) => RequestType::RemoveCertificate(RemoveCertificate { address: addr.into(), fingerprint: resolve_ref(r, fx).0 }).into(),
         HsOp::Cert(Op::Replace { old, new }) => RequestType::ReplaceCertificate(ReplaceCertificate { address: addr.into(), new_certificate: build_ck(new, fx), old_fingerprint: resolve_ref(old, fx).0, new_expired_at: new.expired_at }).into(),
         HsOp::AddFront(h) => RequestType::AddHttpsFrontend(RequestHttpFrontend { cluster_id: Some(cluster_of(h)), address: addr.into(), hostname: h.clone(), path: PathRule::prefix("/".to_string()), position: RulePosition::Tree.into(), ..Default::default() }).into(),
+        HsOp::PatchAlpn => RequestType::UpdateHttpsListener(sozu_command_lib::proto::command::UpdateHttpsListenerConfig { address: addr.into(), alpn_protocols: Some(sozu_command_lib::proto::command::AlpnProtocols { values: vec!["h2".into(), "http/1.1".into()] }), ..Default::default() }).into(),
         HsOp::RemoveFront(h) => RequestType::RemoveHttpsFrontend(RequestHttpFrontend { cluster_id: Some(cluster_of(h)), address: addr.into(), hostname: h.clone(), path: PathRule::prefix("/".to_string()), position: RulePosition::Tree.into(), ..Default::default() }).into(),
     }
 }
